@@ -34,11 +34,11 @@ type c18Rcpt struct {
 }
 
 type c18Gen struct {
-	utf8                                      bool
+	utf8                               bool
 	msgID, from, to, rm, rcvd, xs, xid string
-	arr                                       bool
-	hdr                                       int
-	rcpts                                     []c18Rcpt
+	arr                                bool
+	hdr                                int
+	rcpts                              []c18Rcpt
 }
 
 func c18b(b bool) string {
@@ -139,6 +139,13 @@ func c18Run(out *vh.Out, op string) {
 	case err != nil:
 		n := vdsn.GenErrName(err.Error())
 		out.Corr(op, "err:"+n)
+		if strings.HasPrefix(n, "other(") {
+			// not one of the refusals GenerateDSN documents (a required field missing, a name that
+			// cannot be converted): every field is there, yet no report - whatever the error texts
+			// of the recipients look like, they have to be presentable as a Diagnostic-Code
+			out.Violation("C18/report-not-generated", op, "GenerateDSN failed on complete input: "+err.Error())
+			n = "other"
+		}
 		out.Stat("gen.err." + n)
 		return
 	}
@@ -202,6 +209,42 @@ func c18Run(out *vh.Out, op string) {
 			if !vdsn.LocalPartKept(a, rc.final) {
 				out.Violation("C18/failed-recipient-not-listed", op, fmt.Sprintf("record %d names %q, the report shows %q: the local part was altered", i+1, rc.final, a))
 				break
+			}
+		}
+	}
+	// Diagnostic-Code of group i: ONE well-formed field carrying the text of record i's error with
+	// line breaks (CR, LF in any combination) and other control characters flattened to white space
+	if len(p.Rcpts) == len(g.rcpts) {
+		for i, rc := range g.rcpts {
+			dg := p.Rcpts[i]["Diagnostic-Code"]
+			text := vdsn.FlatText(rc.dtext)
+			if !g.utf8 {
+				text = vdsn.ASCIIText(rc.dtext)
+			}
+			switch {
+			case rc.dkind == 'S' && len(dg) != 1, rc.dkind == 'O' && g.utf8 && len(dg) != 1:
+				out.Violation("C18/diagnostic-missing", op, fmt.Sprintf("record %d: %d Diagnostic-Code fields", i+1, len(dg)))
+			case rc.dkind == 'S':
+				want := fmt.Sprintf("smtp; %d %d.%d.%d %s", rc.dcode, rc.dench[0], rc.dench[1], rc.dench[2], text)
+				if vdsn.CanonWs(dg[0]) != vdsn.CanonWs(want) {
+					out.Violation("C18/diagnostic-not-last-error", op, fmt.Sprintf("record %d: Diagnostic-Code %q, the error says %q", i+1, dg[0], want))
+				}
+			case rc.dkind == 'O' && g.utf8:
+				if want := "X-Maddy; " + text; vdsn.CanonWs(dg[0]) != vdsn.CanonWs(want) {
+					out.Violation("C18/diagnostic-not-last-error", op, fmt.Sprintf("record %d: Diagnostic-Code %q, the error says %q", i+1, dg[0], want))
+				}
+			}
+			if rc.dkind != 'N' {
+				switch {
+				case vdsn.BareCR(rc.dtext):
+					out.Stat("gen.text.bare-cr")
+				case vdsn.HasCtl(rc.dtext):
+					out.Stat("gen.text.other-control")
+				case strings.ContainsAny(rc.dtext, "\r\n"):
+					out.Stat("gen.text.line-breaks")
+				default:
+					out.Stat("gen.text.plain")
+				}
 			}
 		}
 	}
@@ -305,14 +348,21 @@ func c18GenCase(r *vh.Rng) *c18Gen {
 		if r.Chance(3) {
 			rc.st = [3]int{2 + r.Intn(6), r.Intn(10), r.Intn(300)}
 		}
+		text := c18Texts[r.Intn(len(c18Texts))]
+		if r.Chance(35) {
+			text = vdsn.NastyTexts[r.Intn(len(vdsn.NastyTexts))]
+		}
 		switch k := r.Intn(10); {
 		case k < 7:
-			rc.dkind, rc.dcode, rc.dench, rc.dtext = 'S', c[0], [3]int{c[1], c[2], c[3]}, c18Texts[r.Intn(len(c18Texts))]
+			rc.dkind, rc.dcode, rc.dench, rc.dtext = 'S', c[0], [3]int{c[1], c[2], c[3]}, text
 			if r.Chance(10) {
 				rc.dench = [3]int{0, 0, 0}
 			}
 		case k < 9:
-			rc.dkind, rc.dtext = 'O', "dial tcp: "+c18Texts[r.Intn(len(c18Texts))]
+			rc.dkind, rc.dtext = 'O', "dial tcp: "+text
+			if r.Chance(20) {
+				rc.dtext = text
+			}
 		default:
 			rc.dkind = 'N'
 		}
